@@ -1,0 +1,35 @@
+// Copyright © 2022-2026 Obol Labs Inc. Licensed under the terms of a Business Source License 1.1
+
+//go:build verif
+
+package parsigex
+
+import (
+	"context"
+
+	"github.com/libp2p/go-libp2p/core/peer"
+	"google.golang.org/protobuf/proto"
+
+	"github.com/obolnetwork/charon/core"
+)
+
+// This file is only compiled with the "verif" build tag. It lets the verification harness call
+// the unexported receive handler of ParSigEx without a libp2p host. It adds no behaviour to any
+// existing function.
+
+// VerifNew returns a ParSigEx with the given verify and gater functions that is not registered
+// with any libp2p host (NewParSigEx minus p2p.RegisterHandler). Only Subscribe and VerifHandle
+// may be used on it.
+func VerifNew(verifyFunc func(context.Context, peer.ID, core.Duty, core.PubKey, core.ParSignedData) error,
+	gaterFunc core.DutyGaterFunc,
+) *ParSigEx {
+	return &ParSigEx{
+		verifyFunc: verifyFunc,
+		gaterFunc:  gaterFunc,
+	}
+}
+
+// VerifHandle calls the unexported receive handler.
+func (m *ParSigEx) VerifHandle(ctx context.Context, sender peer.ID, req proto.Message) (proto.Message, bool, error) {
+	return m.handle(ctx, sender, req)
+}
